@@ -95,7 +95,7 @@ def bounds(tier):
         "prices": "k*1e-4, k in [1, 1e10]",
         "instants": "microseconds inside the window years (1 year; 2 years for schedules), ties allowed, non-decreasing in slot order",
         "utc_offsets": "jobs marked tz: one symbolic offset per slot, whole minutes in [-720, 840]; otherwise UTC",
-        "outside": ["longer histories", "per-wallet application", "tie-break order among equally ranked lots", "schedules with more than 2 methods", "rows not in time order (C17)"],
+        "outside": ["longer histories", "per-wallet application", "tie-break order among equally ranked lots", "schedules with more than 3 entries", "rows not in time order (C17)"],
     }
 
 
